@@ -9,6 +9,7 @@
 //! Result: one token per event (`T:M<id>|T:N|T:X`, `E:ok|E:err`, `O:<M|N|X>:<content>`), then `| P<id|->`.
 //!
 //! Mode `e2e` (argv[2]): case line `seed popt prune stealth`; see `e2e_case`.
+//! Mode `iter` (argv[2]): the real TreeIterator on a given item stream; see `iter_case`.
 //! Mode `mem` (argv[2]): backups of in-memory sources with freely chosen metadata; see `mem_case`.
 use std::collections::BTreeMap;
 use std::ffi::OsString;
@@ -763,6 +764,51 @@ fn mem_case(line: &str) -> String {
     }
 }
 
+// ------------------------------------------------------------------ iter mode (TreeIterator)
+
+/// `fuel nitems { ncomps comp* node }`, comp := 0 (`/`) | 1 (`.`) | 2 (`..`) | 3 name.
+/// Output: one token per item the real TreeIterator yields (`N:<name>:<node name>:<mode>:<mtime>`,
+/// `E`, `O:<node name>:<mode>:<mtime>`), `diverges` when it is not exhausted after fuel-1 items.
+fn iter_case(line: &str) -> String {
+    use rustic_core::verif_hooks::c11::{IterItem, tree_iterator_items};
+    let mut t = Toks::new(line);
+    let fuel = t.u() as usize;
+    let n = t.u();
+    let mut items = Vec::new();
+    for _ in 0..n {
+        let nc = t.u();
+        let mut p = PathBuf::new();
+        for _ in 0..nc {
+            match t.u() {
+                0 => p.push("/"),
+                1 => p.push("."),
+                2 => p.push(".."),
+                _ => p.push(name_of(t.u())),
+            }
+        }
+        items.push((p, rd_node(&mut t)));
+    }
+    let out = tree_iterator_items(items, fuel);
+    if out.len() >= fuel {
+        return "diverges".to_string();
+    }
+    let nm = |n: &Node| n.name().to_string_lossy().trim_start_matches('n').trim_start_matches('0').to_string();
+    let fix = |s: String| if s.is_empty() { "0".to_string() } else { s };
+    let mt = |n: &Node| n.meta.mtime.map_or("-".to_string(), |x| x.as_nanosecond().to_string());
+    let toks: Vec<String> = out
+        .iter()
+        .map(|i| match i {
+            IterItem::NewTree(_, node, name) => {
+                let c = fix(name.to_string_lossy().trim_start_matches('n').trim_start_matches('0').to_string());
+                format!("N:{c}:{}:{}:{}", fix(nm(node)), node.meta.mode.unwrap_or(0), mt(node))
+            }
+            IterItem::EndTree => "E".to_string(),
+            IterItem::Other(_, node) => format!("O:{}:{}:{}", fix(nm(node)), node.meta.mode.unwrap_or(0), mt(node)),
+        })
+        .collect();
+    if toks.is_empty() { "-".to_string() } else { toks.join(" ") }
+}
+
 fn repo_reopen(store: &std::sync::Arc<rustic_testing::backend::in_memory_backend::InMemoryBackend>, key: &rustic_core::repofile::MasterKey) -> anyhow::Result<RepoOpen> {
     open_repo(store.clone(), None, key, &repo_opts())
 }
@@ -785,11 +831,13 @@ fn main() {
     if std::env::var("C11_DEBUG").is_ok() {
         // no panic hook, no catch: show where a case fails
         for l in std::fs::read_to_string(std::env::args().nth(1).unwrap()).unwrap().lines() {
-            println!("{}", if mode == "e2e" { e2e_case(l) } else if mode == "mem" { mem_case(l) } else { hook_case(l) });
+            println!("{}", if mode == "e2e" { e2e_case(l) } else if mode == "mem" { mem_case(l) } else if mode == "iter" { iter_case(l) } else { hook_case(l) });
         }
         return;
     }
-    if mode == "mem" {
+    if mode == "iter" {
+        for_each_case(|l| iter_case(l));
+    } else if mode == "mem" {
         for_each_case(|l| mem_case(l));
     } else if mode == "e2e" {
         for_each_case(|l| e2e_case(l));
